@@ -154,3 +154,85 @@ def check_forwarding(run, A, module_prefixes, rule='R-FWD'):
                               construct=f'{rule}::{fn.qual}::{cal.qual}::{p}')
     run.count('same-named options examined at call sites', n)
     return n
+
+
+def check_stale_loop_variables(run, A, module_prefixes, rule='R-STALE'):
+    """the value a `for` target holds after its loop (the LAST element) is not used: after a search loop the winner lives in the
+    variable the loop updates, and `x[f, permutation]` for `x[f, best_permutation]` type-checks, runs and passes shape tests"""
+    n = 0
+    for fn in A.prog.all_funcs():
+        if not any(fn.mod.name == p.rstrip('.') or fn.mod.name.startswith(p) for p in module_prefixes):
+            continue
+        g = A.graphs.get(fn)
+        for L in g.loops:
+            if L.kind != 'for':
+                continue
+            body = {id(e) for e in L.body_events}
+            roots = [g.ret] + [e.term for e in g.events if e.term is not None and id(e) not in body]
+            roots += [c for e in g.events if id(e) not in body for c, _ in e.guards]
+            for nm in [x.id for x in ast.walk(L.node.target) if isinstance(x, ast.Name)]:
+                mu = L.mus.get(nm)
+                if mu is None:
+                    continue
+                n += 1
+                hit = None
+                for r in roots:
+                    for t in walk_terms(r, into_mu=False):
+                        if t is mu:
+                            hit = r
+                            break
+                    if hit is not None:
+                        break
+                if hit is not None:
+                    run.violation(rule, f'{fn.qual.split("::")[1]}: loop variable `{nm}` (line {L.node.lineno}) used after its loop', fn.loc(getattr(hit, 'node', None)),
+                                  f'`{norm_stmt(hit.node) if getattr(hit, "node", None) is not None else nm}` reads `{nm}` after the loop that binds it has ended: it is the last element '
+                                  f'iterated over, not a selected one', construct=f'{rule}::{fn.qual}::{nm}')
+    run.count('for-loop targets examined for use after the loop', n)
+    return n
+
+
+def check_argument_names(run, A, module_prefixes, rule='R-ARGNAME'):
+    """a variable that carries the name of parameter q of the callee is not handed over as a different parameter p of the same callee
+    (`f(target_psd_matrix=noise_psd_matrix)`, or the two swapped positionally): 246 name-to-parameter bindings of the reference tree, none crossed"""
+    from .model import Func
+    methods = {}
+    for f in A.prog.all_funcs():
+        if f.cls is not None:
+            methods.setdefault(f.name, []).append(f)
+    n = 0
+    for fn in A.prog.all_funcs():
+        if not any(fn.mod.name == p.rstrip('.') or fn.mod.name.startswith(p) for p in module_prefixes):
+            continue
+        for c in ast.walk(fn.node):
+            if not isinstance(c, ast.Call):
+                continue
+            cal, skip = None, 0
+            if isinstance(c.func, ast.Name):
+                r = A.prog.lookup(fn.mod, c.func.id)
+                if isinstance(r, Func):
+                    cal = r
+            elif isinstance(c.func, ast.Attribute) and methods.get(c.func.attr):
+                if len({tuple(m.posonly + m.args + m.kwonly) for m in methods[c.func.attr]}) == 1:
+                    cal = methods[c.func.attr][0]
+                    skip = 0 if cal.is_static else 1
+            if cal is None:
+                continue
+            params = (cal.posonly + cal.args)[skip:]
+            allp = set(params) | set(cal.kwonly)
+            bound = {}
+            for i, a in enumerate(c.args):
+                if isinstance(a, ast.Starred):
+                    break
+                if i < len(params) and isinstance(a, ast.Name):
+                    bound[params[i]] = a.id
+            for k in c.keywords:
+                if k.arg and isinstance(k.value, ast.Name):
+                    bound[k.arg] = k.value.id
+            for p, v in sorted(bound.items()):
+                n += 1
+                if v != p and v in allp:
+                    run.violation(rule, f'{fn.qual.split("::")[1]} -> {cal.name}: `{v}` passed as `{p}`', fn.loc(c),
+                                  f'`{norm_stmt(c)[:100]}`: the variable `{v}` is handed over as parameter `{p}` although {cal.name} has a parameter named `{v}` (arguments crossed?)',
+                                  construct=f'{rule}::{fn.qual}::{cal.qual}::{p}<-{v}')
+    run.count('variable-to-parameter bindings examined', n)
+    return n
